@@ -302,6 +302,35 @@ def tlaps(ctx, relpath, timeout=900):
     return res
 
 
+def apalache(ctx, relpath, steps, timeout=600):
+    """Optional strengthening by a third engine: Apalache (symbolic, SMT) checks an inductive invariant of a typed module.
+    `steps` = [(init, inv, length), ...].  Runs in a scratch copy (apalache writes _apalache-out next to the file).
+    A step that does not go through is a note, never a verdict about the code."""
+    src = os.path.join(SPEC, relpath)
+    work = ctx.fresh("apalache")
+    os.makedirs(work)
+    shutil.copy(src, work)
+    t0 = time.time()
+    done = []
+    for init, inv, length in steps:
+        try:
+            p = subprocess.run(["apalache-mc", "check", "--cinit=ConstInit", "--init=" + init, "--inv=" + inv, "--length=%d" % length,
+                                os.path.basename(src)], cwd=work, timeout=timeout, stdout=subprocess.PIPE, stderr=subprocess.STDOUT, text=True)
+            ok = "The outcome is: NoError" in p.stdout
+        except (subprocess.TimeoutExpired, OSError) as e:
+            ok = False
+        done.append({"init": init, "inv": inv, "length": length, "ok": ok})
+    shutil.rmtree(work, ignore_errors=True)
+    res = {"module": relpath, "steps": done, "all_ok": all(d["ok"] for d in done), "wall_s": round(time.time() - t0, 1)}
+    ctx.extra.setdefault("apalache", []).append(res)
+    if res["all_ok"]:
+        log("  A %-28s inductive invariant checked by Apalache (%d steps)  %5.1fs" % (relpath, len(done), res["wall_s"]))
+    else:
+        ctx.notes.append("Apalache check %s did not go through: %s" % (relpath, [d for d in done if not d["ok"]]))
+        log("  A %-28s NOT checked (recorded as a note)" % relpath)
+    return res
+
+
 def tail_errors(out):
     lines = [l for l in out.splitlines() if not l.startswith(("Parsing file", "Semantic processing", "Linting"))]
     return "\n".join(lines[-40:])
